@@ -209,7 +209,7 @@ func (pw *pairWorld) answerArrives() {
 func (m *pairModel) Key() (string, []int) {
 	spent := []int{m.side[0].ticks, m.side[1].ticks, m.drops, m.dups, m.devs, m.exchanges}
 
-	k := m.canon() + fmt.Sprintf(" gen=%d/%d exch=%d/%d sig=%v/%v", m.side[0].gen, m.side[1].gen, m.exch, m.exchInit*m.exch, m.side[0].sigDone, m.side[1].sigDone)
+	k := m.canon() + fmt.Sprintf(" gen=%d/%d exch=%d/%d sig=%v/%v lost=%v", m.side[0].gen, m.side[1].gen, m.exch, m.exchInit*m.exch, m.side[0].sigDone, m.side[1].sigDone, m.lost)
 	if m.cfg.Monitor {
 		k += " ledger=" + m.ledgers[0].summary() + "/" + m.ledgers[1].summary()
 	}
@@ -344,6 +344,11 @@ func checkC01(c *runCtx) {
 		sp{"1x1 both behind NAT, only private addresses signalled (no usable pair), D<=2", pairCfg{KindsA: []string{"nat"}, KindsB: []string{"nat"}, Ticks: 3, Drops: 2, Dups: 2, Dev: 2}},
 		sp{"3x3 reachable, D<=1", pairCfg{KindsA: []string{"host", "host", "host"}, KindsB: []string{"host", "host", "host"}, Ticks: 3, Drops: 1, Dups: 1, Dev: 1}},
 		sp{"4x4 reachable, D<=1", pairCfg{KindsA: []string{"host", "host", "host", "host"}, KindsB: []string{"host", "host", "host", "host"}, Ticks: 3, Drops: 1, Dups: 1, Dev: 1}},
+	)
+	// a loss prefix as long as the retry budget: the first 7 checks of one side vanish, the next one must still be sent and connect
+	specs = append(specs,
+		sp{"1x1, the first 7 checks of the controlling side are lost, D<=1", pairCfg{KindsA: host1, KindsB: host1, LoseA: 7, Ticks: 9, Dev: 1, FairMax: 10}},
+		sp{"1x1, the first 7 checks of the controlled side are lost, D<=1", pairCfg{KindsA: host1, KindsB: host1, LoseB: 7, Ticks: 9, Dev: 1, FairMax: 10}},
 	)
 	// trickle: each candidate reaches the peer as an event of its own (peer-reflexive candidates superseded by signalled ones)
 	specs = append(specs,
